@@ -928,7 +928,14 @@ RestSegs == <<[seg |-> "dead-rest", n |-> Len(DeadRestCells)], [seg |-> "unused2
 Segs == IF Thorough THEN QuickSegs \o RestSegs ELSE QuickSegs
 RECURSIVE SumN(_, _)
 SumN(sg, i) == IF i = 0 THEN 0 ELSE sg[i].n + SumN(sg, i - 1)
-NCases == SumN(Segs, Len(Segs))
+\* [segs, start (first index of every segment minus one), total].  NOTE on the shape of the definitions from here on:
+\* with -coverage TLC builds its cost model by walking the definition graph below every action as a TREE (every
+\* reference to a definition - LET definitions included - expands its body again; only operator PARAMETERS are leaves),
+\* and one copy of Segs costs seconds.  So Segs is referenced exactly once, and what is derived from it is handed on
+\* as an argument.
+MkSegTable(sg) == [segs |-> sg, start |-> [sx \in 1..Len(sg) |-> SumN(sg, sx - 1)], total |-> SumN(sg, Len(sg))]
+SegTable == MkSegTable(Segs)
+NCases == SegTable.total
 SegCase(seg, jj) ==
   CASE seg = "name" -> GridAt(LowerSpell, LowerSites, NameCase, jj)
     [] seg = "cname" -> GridAt(UpperSpell, UpperSites, CNameCase, jj)
@@ -946,12 +953,13 @@ SegCase(seg, jj) ==
     [] seg = "unused2" -> GridAt(UOperands, UOperands, U2Case, jj)
     [] seg = "ctlx-rest" -> CxCase(CxRestCells[jj])
     [] seg = "strc-rest" -> ScCase(ScRestCells[jj])
-\* first index of every segment minus one; the segment an index falls into (no recursion over a lazily evaluated
-\* remainder: TLC re-evaluates operator arguments at every use when it evaluates an initial-state predicate)
-SegStart == [sx \in 1..Len(Segs) |-> SumN(Segs, sx - 1)]
-SegOf(i) == CHOOSE sx \in 1..Len(Segs) : SegStart[sx] < i /\ i <= SegStart[sx] + Segs[sx].n
-\* case i of the universe, derived on demand (i \in 1..NCases)
-CaseAt(i) == LET sx == SegOf(i) IN SegCase(Segs[sx].seg, i - SegStart[sx])
+\* the segment an index falls into (no recursion over a lazily evaluated remainder: TLC re-evaluates operator
+\* arguments at every use when it evaluates an initial-state predicate)
+SegOf(tb, i) == CHOOSE sx \in 1..Len(tb.segs) : tb.start[sx] < i /\ i <= tb.start[sx] + tb.segs[sx].n
+CaseAtSeg(tb, i, sx) == SegCase(tb.segs[sx].seg, i - tb.start[sx])
+\* case i of the universe described by the segment table tb, derived on demand (i \in 1..tb.total)
+CaseIn(tb, i) == CaseAtSeg(tb, i, SegOf(tb, i))
+CaseAt(i) == CaseIn(SegTable, i)
 Families == IF Thorough THEN <<"name", "cname", "str", "num", "unused", "size", "ctl", "ctlfn", "dead", "ctlx", "strc", "wide", "unused2">>
             ELSE <<"name", "cname", "str", "num", "unused", "size", "ctl", "ctlfn", "dead", "ctlx", "strc", "wide">>
 =============================================================================
